@@ -89,6 +89,11 @@ type (
 		Next     uint64            `json:"next"`
 		Pcaps    int               `json:"pcaps"`
 		Imported []string          `json:"imported"` // pcaps whose import completion ran
+		// background jobs in flight at the time of the copy
+		JobConvert bool `json:"job_convert"`
+		JobTag     bool `json:"job_tag"`
+		JobMerge   bool `json:"job_merge"`
+		JobImport  int  `json:"job_import"`
 	}
 	c12IndexFile struct {
 		Name    string            `json:"name"`
@@ -447,6 +452,10 @@ func c12RunScenario(t c12T, scen c12Scenario, base, outFile string) {
 			meta.Next = mgr.nextStreamID
 			meta.Pcaps = len(mgr.builder.KnownPcaps())
 			meta.Imported = append([]string{}, imported...)
+			meta.JobConvert = mgr.converterJobRunning
+			meta.JobTag = mgr.taggingJobRunning
+			meta.JobMerge = mgr.mergeJobRunning
+			meta.JobImport = len(mgr.importJobs)
 			close(done)
 		}
 		<-done
